@@ -31,6 +31,40 @@ def mk_context(prog, method, cfg, data):
     return struct_of(prog, "RitiContext", {"method": cell, "config": cfg, "data": data})
 
 
+def fit_return(it, callee, v):
+    """An oracle standing in for a crate function answers in the shape the function's signature has in the tree under check: wrapped in
+    Some / Ok when the function returns an Option / a Result."""
+    from mirsym.values import some, ok
+    try:
+        f = it.p.resolve(callee)
+    except Exception:
+        f = None
+    rt = (getattr(f, "ret_type", None) or "").strip()
+    for pre in ("", "std::option::", "core::option::", "std::result::", "core::result::"):
+        if rt.startswith(pre + "Option<"):
+            return some(v)
+        if rt.startswith(pre + "Result<"):
+            return ok(v)
+    return v
+
+
+def fit_unit(it, callee):
+    """What an oracle for a `()` function returns when the tree under check gave the function a result: an unconstrained value of that type."""
+    from mirsym.values import UNIT
+    try:
+        f = it.p.resolve(callee)
+    except Exception:
+        f = None
+    rt = (getattr(f, "ret_type", None) or "()").strip()
+    if rt == "bool":
+        fit_unit.n += 1
+        return it.st.sym_bool("oracle_result_%d" % fit_unit.n)
+    return UNIT
+
+
+fit_unit.n = 0
+
+
 def make_context(shape):
     """A fixed-layout context with a word in progress or idle; events through RitiContext's own functions."""
     n = shape["n"]
@@ -65,19 +99,29 @@ def make_context(shape):
         def fixed_new(it2, args, callee):
             if first[0]:
                 first[0] = False
-                return fm
+                return fit_return(it2, callee, fm)
             m = mk_fixed(prog, [], [], None, [], [(key_name("Key_a_Normal"), [0x0996])])
             made.append(m)
-            return m
+            return fit_return(it2, callee, m)
+        reads = [0]
+
         def get_layout(it2, args, callee):
-            from mirsym.values import some
+            # the layout file: readable when the context is created; whether it can be read at any later moment is the environment's choice
+            # (an editor may be saving it) - only for an update that keeps the layout, where the file is none of the update's business
+            from mirsym.values import some, none
+            reads[0] += 1
+            if not first[0] and shape.get("same_layout", True) and ev == "update":
+                if not it2.st.branch(st.sym_bool("layout_file_readable_%d" % reads[0])):
+                    unreadable.append(reads[0])
+                    return none()
             return some(Opaque("serde_json::Value", ("layout",)))
+        unreadable = []
 
         def from_value(it2, args, callee):
             from mirsym.values import ok
             return ok(SMap("layout", [[key_name("Key_a_Normal"), SString([0x0996])]]))
         it.env["overrides"] = {"FixedMethod::new": fixed_new, "Data::new": lambda it2, args, callee: data, "Config::get_layout": get_layout, "from_value": from_value}
-        st.ctx = dict(buf=buf, fm=fm, cfg_new=cfg_new, opts_new=opts_new, opts_old=opts_old, made=made, shape=shape, holder=holder)
+        st.ctx = dict(buf=buf, fm=fm, cfg_new=cfg_new, opts_new=opts_new, opts_old=opts_old, made=made, shape=shape, holder=holder, unreadable=unreadable)
 
         def fn(name):
             return prog.find_fn("RitiContext", name)
@@ -112,7 +156,7 @@ def make_context(shape):
         model = st.get_model()
 
         def inputs(m):
-            return dict(event=ev, text=model_string(m, c["buf"]), same_layout=shape.get("same_layout", True),
+            return dict(event=ev, text=model_string(m, c["buf"]), same_layout=shape.get("same_layout", True), layout_file_unreadable_at_update=bool(c["unreadable"]),
                         new_options={k: bool(model_value(m, v)) for k, v in c["opts_new"].items()})
 
         def pred(m):
@@ -198,7 +242,7 @@ def make_history(shape):
             def f(it2, args, callee):
                 t = MethodTok(kind, layout_of(args[0]), clock[0])
                 toks.append(t)
-                return t
+                return fit_return(it2, callee, t)
             return f
 
         def ev(name, cfg_arg):
@@ -219,7 +263,7 @@ def make_history(shape):
                     return sug
                 if name == "ongoing_input_session":
                     return False
-                return UNIT
+                return fit_unit(it2, callee)
             return f
         from mirsym.values import UNIT
         it.env["overrides"] = {"PhoneticMethod::new": mk("PhoneticMethod"), "FixedMethod::new": mk("FixedMethod"),
@@ -341,7 +385,7 @@ def make_ffi_ownership(shape):
             def f(it2, args, callee):
                 t = MethodTok(kind, "".join(chr(x) for x in deref(args[0]).fields[order.index("layout")].elems), len(calls))
                 toks.append(t)
-                return t
+                return fit_return(it2, callee, t)
             return f
 
         def ev(name, cfg_arg):
@@ -357,7 +401,7 @@ def make_ffi_ownership(shape):
                     return sug
                 if name == "ongoing_input_session":
                     return False
-                return UNIT
+                return fit_unit(it2, callee)
             return f
         it.env["overrides"] = {"PhoneticMethod::new": mk("PhoneticMethod"), "FixedMethod::new": mk("FixedMethod"), "Data::new": lambda it2, args, callee: data,
                                "Method::get_suggestion": ev("get_suggestion", 5), "Method::backspace_event": ev("backspace_event", 3),
@@ -653,6 +697,30 @@ def context_native(vs):
                     steps.append({"op": "free", "ctx": i + 1})
                 scs.append({"steps": steps})
                 meta.append((seq, flips, marks))
+    # the layout file is half written exactly while an update that keeps the layout runs (and whole again afterwards): the fixed-layout options
+    # of the new configuration are in force all the same. Layout: a consonant, ু, া, ঁ, র, ্য - what the composition rules look at.
+    lr = {"Key_k_Normal": "ক", "Key_u_Normal": "ু", "Key_a_Normal": "া", "Key_c_Normal": "ঁ", "Key_r_Normal": "র", "Key_z_Normal": "্য", "Key_h_Normal": "্"}
+    rule_words = ["ku", "a", "kaa", "kca", "rz", "kha", "rhk"]
+    fault = []
+    for opt in ("vowel", "chandra", "kar", "old_reph", "kar_order", "ansi", "fixed_suggestion"):
+        for start in (False, True):
+            def cf(v):
+                return {"layout_json": lr, "database": REPO + "/data", "opts": dict({"vowel": False, "chandra": False, "kar": False, "old_reph": False}, **{opt: v})}
+            steps = [{"op": "new", "ctx": 0, "config": cf(start)}]
+            steps += [dict(x, ctx=0) for x in typ_of("k")] + [{"op": "finish", "ctx": 0}]
+            steps.append({"op": "update", "ctx": 0, "config": cf(not start), "layout_unreadable": True})
+            steps.append({"op": "new", "ctx": 1, "config": cf(not start)})
+            marks = []
+            for w in rule_words:
+                pair = []
+                for cx in (0, 1):
+                    steps += [dict(x, ctx=cx) for x in typ_of(w)]
+                    pair.append(len(steps) - 1)
+                    steps.append({"op": "finish", "ctx": cx})
+                marks.append((pair[0], pair[1], 1, w))
+            fault.append(({"steps": steps}, ("AA", "option '%s' %s -> %s; layout file unreadable during the update" % (opt, start, not start), marks)))
+    scs = [x[0] for x in fault] + scs
+    meta = [x[1] for x in fault] + meta
     from common import run_replay_parallel
     res = run_replay_parallel(scs)
     for (seq, flips, marks), sc, r in zip(meta, scs, res):
@@ -663,13 +731,13 @@ def context_native(vs):
         for (a, b, stage, word) in marks:
             x, y = rr[a], rr[b]
             if x.get("suggestion") != y.get("suggestion"):
-                return sc, [x, y], ("history of layouts %s (P phonetic, A/B two fixed layouts; user auto-correct file edited before each update): at stage %d the "
+                return sc, [x, y], ("history of layouts %s (P phonetic, A/B two fixed layouts; user auto-correct file edited before each update)%s: at stage %d the "
                                     "updated context answers '%s' with %s, a context newly created with the same configuration with %s" % (
-                                        "->".join(seq), stage, word, json.dumps(x.get("suggestion"), ensure_ascii=False)[:200], json.dumps(y.get("suggestion"), ensure_ascii=False)[:200]))
+                                        "->".join(seq), (" [%s]" % flips) if isinstance(flips, str) else "", stage, word, json.dumps(x.get("suggestion"), ensure_ascii=False)[:200], json.dumps(y.get("suggestion"), ensure_ascii=False)[:200]))
     return None
 
 
-def obl_context(check, thorough=False, budget_s=None):
+def obl_context(check, thorough=False, budget_s=None, updates_only=False):
     import itertools
     shapes = []
     for ev in ("key", "backspace", "commit", "finish"):
@@ -677,6 +745,8 @@ def obl_context(check, thorough=False, budget_s=None):
             shapes.append(dict(event=ev, n=n, family="event"))
     for same in (True, False):
         shapes.append(dict(event="update", n=0, same_layout=same, family="event"))
+    if updates_only:
+        return _obl_context_updates(check, [s for s in shapes if s["event"] == "update"], budget_s)
     for n in ((2, 3, 4) if thorough else (2, 3)):
         for seq in itertools.product("PAB", repeat=n):
             shapes.append(dict(layouts="".join(seq), family="history"))
@@ -723,6 +793,33 @@ def obl_context(check, thorough=False, budget_s=None):
         if worst[st] > worst[status]:
             status = st
     check.obligation(name, "mirsym", status, "%d paths; %d counterexample models" % (summ["paths"], len(vio)))
+
+
+def _obl_context_updates(check, shapes, budget_s):
+    """Only the `update_engine` shapes of the context layer (the options an idle context was last given are the ones the next key is handled with)."""
+    check.bounds["context_update"] = dict(shape="new_with_config, update_engine (idle; layout kept or changed; every option of the new configuration an independent symbol; "
+                                                "whether the layout file can be read during an update that keeps the layout is the environment's choice), one key")
+    records, errors, summ = msym.run_shapes(check, "context_update", shapes, make_context, budget_s=budget_s)
+    vio = [r for r in records if r["kind"] == "violation" and (getattr(check, "only_clauses", None) is None or r["clause"] in check.only_clauses)]
+    covers = set(r["name"] for r in records if r["kind"] == "cover")
+    name = "context_update"
+    if errors:
+        check.obligation(name, "mirsym", "inconclusive", "executor gave up: " + "; ".join(sorted(set(errors))[:3]))
+        return
+    if "cover:update" not in covers:
+        check.obligation(name, "mirsym", "inconclusive", "vacuity: missing reachability witnesses")
+        return
+    if not vio:
+        check.obligation(name, "mirsym", "held", "%d paths; the configuration given to update_engine is the one later events are handled with" % summ["paths"])
+        return
+    found = context_native(vio)
+    if found is None:
+        check.obligation(name, "mirsym", "inconclusive", "counterexample not re-found natively: %s (%s)" % (json.dumps(vio[0]["inputs"], ensure_ascii=False)[:300], vio[0]["clause"]))
+        return
+    sc, obs, what = found
+    check.stats["traces_validated"] += 1
+    st = check.finding("context update: " + vio[0]["clause"], what, dict(scenario=sc, observed=obs, solver_counterexample=vio[0]["inputs"]))
+    check.obligation(name, "mirsym", st, "%d paths; %d counterexample models" % (summ["paths"], len(vio)))
 
 
 # ------------------------------------------------------------------------- layout switch through the context (C04 / C11)
